@@ -1,4 +1,5 @@
 #include <ctype.h>
+#include <errno.h>
 #include <stdlib.h>
 #include <stdio.h>
 #include <string.h>
@@ -268,7 +269,9 @@ int lbuf_wr(struct lbuf *lbuf, int fd, int beg, int end)
 	}
 	if (buf_len > 0 && write_fully(fd, buf, buf_len) < 0)
 		return 1;
-	ftruncate(fd, sz);
+	/* cutting is not supported by devices and pipes (EINVAL) */
+	if (ftruncate(fd, sz) < 0 && errno != EINVAL)
+		return 1;
 	return 0;
 }
 
